@@ -36,7 +36,7 @@ _TRACERS = {}
 def tracer(prog, fn):
     k = (id(prog), fn.id)
     t = _TRACERS.get(k)
-    if t is None:
+    if t is None or t.fn is not fn:     # the body was rewritten by the normalisation since (Program.replace_fn)
         t = Tracer(prog, fn)
         _TRACERS[k] = t
     return t
